@@ -260,26 +260,32 @@ class Ev:
     def live(self):
         if self._live is None:
             self._live = set(range(len(self.fn.blocks)))  # provisional: everything, while evaluating discriminants
-            live = {0}
-            dq = deque([0])
-            while dq:
-                b = dq.popleft()
-                t = self.fn.blocks[b].term
-                succs = self.fn.succ(b)
-                if t["k"] == "switch":
-                    v = self.op(t["op"], (b, "term"))
-                    if v[0] == "int":
-                        tgt = t["otherwise"]
-                        for val, bb in t["cases"]:
-                            if val == v[1]:
-                                tgt = bb
-                        succs = [tgt]
-                for s in succs:
-                    if s not in live:
-                        live.add(s)
-                        dq.append(s)
-            self._live = live
-            self.memo = {}
+            # iterate: folding a branch removes definitions, which can make a later discriminant constant (e.g. a helper returning an enum
+            # that was inlined and is matched on right after); the live set only shrinks, so this terminates
+            for _round in range(6):
+                live = {0}
+                dq = deque([0])
+                while dq:
+                    b = dq.popleft()
+                    t = self.fn.blocks[b].term
+                    succs = self.fn.succ(b)
+                    if t["k"] == "switch":
+                        v = self.op(t["op"], (b, "term"))
+                        if v[0] == "int":
+                            tgt = t["otherwise"]
+                            for val, bb in t["cases"]:
+                                if val == v[1]:
+                                    tgt = bb
+                            succs = [tgt]
+                    for s in succs:
+                        if s not in live:
+                            live.add(s)
+                            dq.append(s)
+                stable = live == self._live
+                self._live = live
+                self.memo = {}
+                if stable:
+                    break
         return self._live
 
     # ------------------------------------------------------------ operands / places
